@@ -139,7 +139,16 @@ func (s *State) Parse(args []string) error {
 }
 
 func fillContainers(containers map[*container.Container][]string) error {
-	for con, vs := range containers {
+	// in a fixed order (that of the declared names), not the random one of the map: the outcome must not
+	// change from one run to the next when two declarations share a variable or when two values are invalid
+	cons := make([]*container.Container, 0, len(containers))
+	for con := range containers {
+		cons = append(cons, con)
+	}
+	sort.Slice(cons, func(i, j int) bool { return cons[i].Name < cons[j].Name })
+
+	for _, con := range cons {
+		vs := containers[con]
 		if multiValued, ok := con.Value.(values.MultiValued); ok {
 			multiValued.Clear()
 		}
